@@ -32,7 +32,9 @@ func c04Opts(i int, c *ml.Config) {
 	c.GossipInterval = 200 * time.Millisecond
 	c.PushPullInterval = 4 * time.Second
 	c.TCPTimeout = 2 * time.Second
-	c.DelegateProtocolMin, c.DelegateProtocolMax, c.DelegateProtocolVersion = 2, 5, 4 // all distinct (a serf-like setup)
+	// all distinct (a serf-like setup), and every node speaks another delegate version of the common
+	// range (a rolling upgrade): the members' version vectors differ from each other
+	c.DelegateProtocolMin, c.DelegateProtocolMax, c.DelegateProtocolVersion = 2, 5, uint8(2+i%4)
 }
 
 func runC04(t *testing.T, s c04Scn) (x nExec) {
@@ -101,6 +103,20 @@ func runC04(t *testing.T, s c04Scn) (x nExec) {
 			c.at(at, "UpdateNode", func() {
 				updates[1]++
 				c.nodes[1].D.SetMeta([]byte("meta-1-updated"))
+				go func() { _ = c.nodes[1].M.UpdateNode(2 * time.Second) }()
+			})
+		case "update-impatient":
+			// the caller does not wait for the update to spread (1 ms): the announcement completes later, with nobody listening
+			c.at(at, "UpdateNode(1ms)", func() {
+				updates[1]++
+				c.nodes[1].D.SetMeta([]byte("meta-1-impatient"))
+				go func() { _ = c.nodes[1].M.UpdateNode(time.Millisecond) }()
+			})
+		case "update-before-join":
+			// a member changes its metadata while it is still alone (nobody to wait for), then joins
+			c.at(time.Millisecond, "UpdateNode(before joining)", func() {
+				updates[1]++
+				c.nodes[1].D.SetMeta([]byte("meta-1-early"))
 				go func() { _ = c.nodes[1].M.UpdateNode(2 * time.Second) }()
 			})
 		case "update-empty":
@@ -219,9 +235,9 @@ func TestC04(t *testing.T) {
 			orders = [][]int{{0, 1, 2, 3}, {3, 1, 0, 2}}
 		}
 		for oi, o := range orders {
-			for _, op := range []string{"none", "update", "update-empty", "leave", "update+leave", "leave+shutdown", "bcast", "reliable", "join-again"} {
+			for _, op := range []string{"none", "update", "update-empty", "update-impatient", "update-before-join", "leave", "update+leave", "leave+shutdown", "bcast", "reliable", "join-again"} {
 				for _, at := range []int{700, 1900, 3300} {
-					if op == "none" && at != 700 {
+					if (op == "none" || op == "update-before-join") && at != 700 {
 						continue
 					}
 					for _, l0 := range []string{"min", "max"} {
